@@ -157,8 +157,8 @@ func c03Lazy(c *vlib.Ctx) {
 				if len(b) == 0 {
 					continue // the property is about non-empty inputs
 				}
-				if len(b) > 65536 {
-					b = b[:65536]
+				if len(b) > 4096 {
+					b = b[:4096] // String/Dump of every program step on 64 KiB inputs only measures the hex dumper
 				}
 				nocopy, dsad := r.Bool(), r.Bool()
 				eo := gopacket.DecodeOptions{NoCopy: nocopy, DecodeStreamsAsDatagrams: dsad}
